@@ -258,6 +258,8 @@ type OpGen struct {
 	ValueDepth int
 	// NoRootOps: never add/replace/test "" nor copy from "".
 	NoRootOps bool
+	// Legacy: no root-replacing add and no copy from "" (the v4 API does not offer them).
+	Legacy bool
 	// MissKinds restricts the near-miss kinds (see Miss); nil = all ten.
 	MissKinds []int
 }
@@ -424,7 +426,7 @@ func (g *OpGen) Next(t *rapid.T, cur *ref.V, i int) ref.Op {
 	val := func() *ref.V { return g.Cfg.Value(g.ValueDepth).Draw(t, l+"val") }
 	switch kind {
 	case "add":
-		if !g.NoRootOps && OneIn(t, 25, l+"root") {
+		if !g.NoRootOps && !g.Legacy && OneIn(t, 25, l+"root") {
 			op.Path = ""
 			op.Value = g.Cfg.Root().Draw(t, l+"rootval")
 			if OneIn(t, 6, l+"rootscalar") {
@@ -451,7 +453,7 @@ func (g *OpGen) Next(t *rapid.T, cur *ref.V, i int) ref.Op {
 		}
 		op.Path = g.PathFor(t, cur, l+"p.", true)
 	case "copy":
-		if !g.NoRootOps && OneIn(t, 12, l+"fromroot") {
+		if !g.NoRootOps && !g.Legacy && OneIn(t, 12, l+"fromroot") {
 			op.From = ""
 		} else {
 			op.From = g.PathFor(t, cur, l+"f.", false)
